@@ -73,13 +73,19 @@ fn main() {
             "C12" => props::c12::replay(&run, case),
             "C17" => props::c17::replay(&run, case),
             _ => {
-                eprintln!("no single-case replay for {}: re-run the check (enumeration is deterministic)", id);
-                std::process::exit(2);
+                // state-graph checks: re-execute the recorded action path through the engine and its oracles
+                if !stf::replay_path(run, case) {
+                    eprintln!("no single-case replay for this artefact of {}: re-run the check (enumeration is deterministic)", id);
+                    std::process::exit(2);
+                }
             }
         }
         let n = run.violation_count();
         for c in run.violation_classes() {
             println!("replayed violation class: {}", c);
+        }
+        if n == 0 {
+            println!("replay: no oracle reported anything on this path");
         }
         std::process::exit(if n > 0 { 1 } else { 0 });
     }
